@@ -324,9 +324,13 @@ func (c13) Run(e *Env) {
 					e.Probe("ip-unset")
 				}
 			case 6:
+				var ks []string
 				for k := range p.labels {
-					delete(p.labels, k)
-					break
+					ks = append(ks, k)
+				}
+				sort.Strings(ks)
+				if len(ks) > 0 {
+					delete(p.labels, ks[0])
 				}
 			}
 			if p.indexable() {
